@@ -102,10 +102,10 @@ Proof.
 Qed.
 
 Lemma filter_in_place_fields r k clear s r' u :
-  filter_in_place fixed r k clear s = (r', u) -> r_orig r' = r_orig r /\ r_avail r' = r_avail r /\ r_last r' = r_last r /\ r_srcs r' = r_srcs (apply_source_ids r s).
+  filter_in_place fixed r k clear s = (r', u) -> r_orig r' = r_orig r /\ r_avail r' = r_avail r /\ r_last r' = r_last r /\ r_srcs r' = r_srcs (apply_source_ids fixed r s).
 Proof.
   unfold filter_in_place. cbn [prev_offset fx_last_off fixed].
-  destruct (getitem fixed (r_index (apply_source_ids (if clear then set_index r (r_orig r) else r) s)) k); intros H; inversion H; subst;
+  destruct (getitem fixed (r_index (apply_source_ids fixed (if clear then set_index r (r_orig r) else r) s)) k); intros H; inversion H; subst;
     destruct clear, s; cbn; conj_split; reflexivity.
 Qed.
 
@@ -135,13 +135,12 @@ Proof.
 Qed.
 
 (* the constructor without type / time filters: succeeds and leaves the cursor at the start of the full index;
-   the source filter in force is the request reduced to the ids discovered (None stays None) *)
+   the source filter in force is the request *)
 Theorem construct_plain c f srcs :
   wf_file f ->
   exists r, construct fixed c f srcs None None = Ok r /\ WF r /\
             r_orig r = index_of_file f (c_max_bytes c) /\ r_index r = r_orig r /\ r_next r = 0 /\ r_last r = -1 /\
-            (srcs = None -> r_srcs r = None) /\
-            (forall ids, srcs = Some ids -> exists ids', r_srcs r = Some ids' /\ incl ids' ids).
+            r_srcs r = srcs.
 Proof.
   intros Hwf. unfold construct. cbn [norm_types types_key range_key].
   set (orig := index_of_file f (c_max_bytes c)).
@@ -156,13 +155,13 @@ Proof.
   destruct F1 as [Fo [Fi [Fn [Fl Fs]]]].
   (* the three filter_in_place calls with key None *)
   assert (STEP : forall r s, r_index r = orig -> r_last r = -1 ->
-                  filter_in_place fixed r KNone false s = (set_next (apply_source_ids r s) 0, Ok tt)).
+                  filter_in_place fixed r KNone false s = (set_next (apply_source_ids fixed r s) 0, Ok tt)).
   { intros r s Hi Hl. unfold filter_in_place. cbn [prev_offset fx_last_off fixed getitem].
-    replace (r_index (apply_source_ids r s)) with (r_index r) by (destruct s; reflexivity).
-    replace (set_index (apply_source_ids r s) (r_index r)) with (apply_source_ids r s) by (destruct s, r; reflexivity).
+    replace (r_index (apply_source_ids fixed r s)) with (r_index r) by (destruct s; reflexivity).
+    replace (set_index (apply_source_ids fixed r s) (r_index r)) with (apply_source_ids fixed r s) by (destruct s, r; reflexivity).
     rewrite Hl. unfold relocate. destruct (zlen (fi_data (r_index r)) =? 0); reflexivity. }
   rewrite (STEP r1 (r_srcs r1) Fi Fl).
-  set (r2 := set_next (apply_source_ids r1 (r_srcs r1)) 0).
+  set (r2 := set_next (apply_source_ids fixed r1 (r_srcs r1)) 0).
   assert (F2 : r_index r2 = orig /\ r_last r2 = -1 /\ r_orig r2 = orig).
   { subst r2. destruct (r_srcs r1); cbn; conj_split; assumption. }
   destruct F2 as [Fi2 [Fl2 Fo2]].
@@ -177,22 +176,17 @@ Proof.
     + exists [], (fi_data orig). split; [reflexivity|]. split; [reflexivity|]. split; [constructor|]. rewrite Fl2.
       rewrite Fo2 in A2. eapply Forall_impl; [|exact A2]. cbn. intros; lia.
   - subst r3. cbn [set_index set_next set_cursor r_orig r_index r_next r_last r_srcs]. rewrite Fo2, Fl2. conj_split; try assumption; try reflexivity.
-    + intros E. subst r2. rewrite Fs, E. cbn [apply_source_ids set_next set_cursor r_srcs]. rewrite Fs. exact E.
-    + intros ids E. subst r2. rewrite Fs, E. cbn [apply_source_ids set_next set_cursor set_srcs r_srcs]. eexists. split; [reflexivity|].
-      destruct (set_eqb (r_avail r1) ids); [apply incl_refl|]. intros x Hx. apply filter_In in Hx. apply Hx.
+    subst r2. rewrite Fs. destruct srcs; cbn [apply_source_ids fx_srcs_as_requested fixed set_next set_cursor set_srcs r_srcs]; [reflexivity|exact Fs].
 Qed.
 
 (* ---------------------------------------------------------------- C11 top level *)
 Theorem script_refines c f srcs ops :
   wf_file f ->
-  exists srcs', run_script fixed c f srcs ops = Ok (spec_script c f srcs' ops) /\
-                (srcs = None -> srcs' = None) /\
-                (forall ids, srcs = Some ids -> exists ids', srcs' = Some ids' /\ incl ids' ids).
+  run_script fixed c f srcs ops = Ok (spec_script c f srcs ops).
 Proof.
-  intros Hwf. destruct (construct_plain c f srcs Hwf) as [r [Ec [Hw [Ho [Hi [Hn [Hl [Hs1 Hs2]]]]]]]].
-  exists (r_srcs r). split; [|split; assumption].
+  intros Hwf. destruct (construct_plain c f srcs Hwf) as [r [Ec [Hw [Ho [Hi [Hn [Hl Hs]]]]]]].
   unfold run_script, spec_script. rewrite Ec. cbn [bind]. f_equal.
-  rewrite (run_refines c f ops r Hw). unfold cursor_of. rewrite Hi, Ho, Hl. reflexivity.
+  rewrite (run_refines c f ops r Hw). unfold cursor_of. rewrite Hi, Ho, Hl, Hs. reflexivity.
 Qed.
 
 (* declarative reading of the SPEC's read when there is no byte limit: the first entry beyond the
